@@ -87,10 +87,29 @@ ObsReal(rec, k) ==
 \* the request as the model sees it: message content compared in its logged (JSON text) form
 ModelAct(a) == a
 
+\* C08, first sentence, judged on the answers themselves: the same {get what=desc} asked by the same session immediately before and
+\* immediately after an unload + load of the topic (the Reload composite), with the same rows in the store, gets the same description
+\* (message and delete counters, the requester's marks and permissions, default access, public / private / trusted data).
+DescView(d) == [seq |-> d.seq, clear |-> d.clear, read |-> d.read, recv |-> d.recv, acs |-> d.acs, defacs |-> d.defacs,
+                public |-> d.public, private |-> d.private, trusted |-> d.trusted]
+DescAnswers(rec) ==
+  LET fr == SelectSeq(Frames(rec, rec.act.s), LAMBDA f : f.k = "meta" /\ f.id = rec.rid /\ "desc" \in DOMAIN f)
+  IN [i \in DOMAIN fr |-> DescView(fr[i].desc)]
+Undisturbed(rec) == ~rec.faultFired /\ ~rec.nested.fired /\ ~rec.afterCrash
+ReloadEquivalence(k) ==
+  LET rec == Trace[k] IN
+  IF "C08" \notin Props \/ rec.i < 3 \/ rec.act.a # "Get" THEN {}
+  ELSE LET mid == Trace[k - 1]  before == Trace[k - 2] IN
+       IF mid.act.a # "Reload" \/ mid.act.t # rec.act.t \/ before.act # rec.act \/ rec.rid = "" \/ before.rid = ""
+          \/ ~(Undisturbed(rec) /\ Undisturbed(mid) /\ Undisturbed(before))
+          \/ StoreOf(Proj(before.st)) # StoreOf(Proj(rec.st)) \/ Proj(before.st).sess # Proj(rec.st).sess
+       THEN {}
+       ELSE If(DescAnswers(before) = DescAnswers(rec), "C08:DescriptionAnswerSameAfterReload")
+
 Check(k) ==
   LET rec == Trace[k] IN
   IF rec.i = 0 THEN {} ELSE
-  Tagged(Proj(Trace[k - 1].st), ModelAct(rec.act), ObsReal(rec, k), Proj(rec.st), Props)
+  Tagged(Proj(Trace[k - 1].st), ModelAct(rec.act), ObsReal(rec, k), Proj(rec.st), Props) \cup ReloadEquivalence(k)
 
 Diverge(k) ==
   LET rec == Trace[k] IN
